@@ -38,6 +38,7 @@ type CaseResult struct {
 	Nodes         int
 	Sample        map[string]interface{}
 	Hints         int
+	Folded        int
 	ObligationIDs map[string]int
 }
 
@@ -71,9 +72,10 @@ type RunOpts struct {
 	Opts
 	Rounds         int
 	GoPolicy       string
-	Prop           string // property id: assertions tagged for another property ("Cnn.") are not this check's
-	Solver         string // primary backend
-	Alt            string // secondary backend (cross-check / fallback)
+	AlsoProps      []string // assertions tagged for these properties count as this check's too
+	Prop           string   // property id: assertions tagged for another property ("Cnn.") are not this check's
+	Solver         string   // primary backend
+	Alt            string   // secondary backend (cross-check / fallback)
 	TimeoutMs      int
 	CrossCheck     bool
 	KnownPredicate func(id string) bool
@@ -205,6 +207,17 @@ func RunCase(prog *ssa.Program, pkg *ssa.Package, harness string, shape map[stri
 	for _, o := range e.Obls {
 		res.ObligationIDs[o.ID]++
 	}
+	// assertion instances decided by constant folding count as obligations discharged by the
+	// simplifier (tagged ones of other properties excluded below like the recorded ones)
+	for id, n := range e.FoldedIDs {
+		if ro.Prop != "" && isForeignID(id, ro.Prop, ro.AlsoProps...) {
+			continue
+		}
+		res.Obligations += n
+		res.Discharged += n
+		res.Folded += n
+		res.ObligationIDs[id] += n
+	}
 	inconclusive := ""
 	// 1. obligations. Assertions tagged for another property ("Cnn.") are not this check's. Two
 	// groups (the property's own assertions first, then the validity checks: panics, raw-pointer
@@ -219,17 +232,7 @@ func RunCase(prog *ssa.Program, pkg *ssa.Package, harness string, shape map[stri
 		isValidity := func(id string) bool {
 			return strings.HasPrefix(id, "nopanic:") || strings.HasPrefix(id, "rawptr:") || strings.HasPrefix(id, "aligned:") || strings.HasPrefix(id, "noblock:")
 		}
-		foreign := func(id string) bool {
-			if strings.HasPrefix(id, "F-") {
-				if i := strings.IndexByte(id, '/'); i > 0 {
-					id = id[i+1:]
-				}
-			}
-			if len(id) > 4 && id[0] == 'C' && id[3] == '.' && id[1] >= '0' && id[1] <= '9' && id[2] >= '0' && id[2] <= '9' {
-				return ro.Prop != "" && id[:3] != ro.Prop
-			}
-			return false
-		}
+		foreign := func(id string) bool { return ro.Prop != "" && isForeignID(id, ro.Prop, ro.AlsoProps...) }
 		var propIdx, valIdx []int
 		for i, o := range e.Obls {
 			if foreign(o.ID) {
@@ -407,6 +410,27 @@ func RunCase(prog *ssa.Program, pkg *ssa.Package, harness string, shape map[stri
 		res.Verdict = "pass"
 	}
 	return res, nil, nil
+}
+
+// isForeignID: the assertion is tagged for another property ("Cnn." possibly behind an "F-…/" prefix)
+func isForeignID(id, prop string, also ...string) bool {
+	if strings.HasPrefix(id, "F-") {
+		if i := strings.IndexByte(id, '/'); i > 0 {
+			id = id[i+1:]
+		}
+	}
+	if len(id) > 4 && id[0] == 'C' && id[3] == '.' && id[1] >= '0' && id[1] <= '9' && id[2] >= '0' && id[2] <= '9' {
+		if id[:3] == prop {
+			return false
+		}
+		for _, a := range also {
+			if id[:3] == a {
+				return false
+			}
+		}
+		return true
+	}
+	return false
 }
 
 func dedup(xs []string) []string {
